@@ -1,0 +1,77 @@
+//go:build verif
+
+// Licensed to LinDB under one or more contributor
+// license agreements. See the NOTICE file distributed with
+// this work for additional information regarding copyright
+// ownership. LinDB licenses this file to you under
+// the Apache License, Version 2.0 (the "License"); you may
+// not use this file except in compliance with the License.
+// You may obtain a copy of the License at
+//
+//     http://www.apache.org/licenses/LICENSE-2.0
+//
+// Unless required by applicable law or agreed to in writing,
+// software distributed under the License is distributed on an
+// "AS IS" BASIS, WITHOUT WARRANTIES OR CONDITIONS OF ANY
+// KIND, either express or implied.  See the License for the
+// specific language governing permissions and limitations
+// under the License.
+
+package stage
+
+import (
+	"context"
+
+	"github.com/lindb/lindb/internal/concurrent"
+)
+
+// This file only exists with the "verif" build tag. It provides a stage whose plan tree,
+// next stages and completion hook are supplied by the external verification harness,
+// while execution goes through the real baseStage; it changes no behaviour.
+
+// VerifStage is a harness controlled stage built on baseStage.
+type VerifStage struct {
+	baseStage
+	id         string
+	plan       PlanNode
+	next       func() []Stage
+	onComplete func()
+}
+
+// NewVerifStage creates a harness controlled stage, execPool == nil => sync stage.
+func NewVerifStage(ctx context.Context, execPool concurrent.Pool, stageType Type, id string,
+	plan PlanNode, next func() []Stage, onComplete func(),
+) *VerifStage {
+	return &VerifStage{
+		baseStage: baseStage{
+			ctx:       ctx,
+			stageType: stageType,
+			execPool:  execPool,
+		},
+		id:         id,
+		plan:       plan,
+		next:       next,
+		onComplete: onComplete,
+	}
+}
+
+// Identifier returns identifier value of current stage.
+func (s *VerifStage) Identifier() string { return s.id }
+
+// Plan returns sub execution tree for this stage.
+func (s *VerifStage) Plan() PlanNode { return s.plan }
+
+// NextStages returns the next stages after this stage completed.
+func (s *VerifStage) NextStages() []Stage {
+	if s.next == nil {
+		return nil
+	}
+	return s.next()
+}
+
+// Complete completes this stage.
+func (s *VerifStage) Complete() {
+	if s.onComplete != nil {
+		s.onComplete()
+	}
+}
